@@ -298,6 +298,38 @@ func c04Enum(ctx *ev.Ctx, fn func(*Config, C04Case)) string {
 				}
 			}
 		}
+		// the V flag with a Vendor-Id field of ZERO: the header still has 12 bytes (the flag, not the
+		// value of the field, says whether the field is there). Leaves whose payload looks like an
+		// AVP, and every vendor-less group code carried this way, with members
+		for _, base := range mid {
+			if base.Flags&0x80 != 0 {
+				continue
+			}
+			z := base
+			z.Flags |= 0x80
+			z.Vendor = 0
+			z.Tag += "/V-flag-vendor-0"
+			emit(c, z)
+			emit(c, z, tail)
+			if len(c.A.Groups) > 0 {
+				emit(c, c.wgroup(0, []WRec{z, tail}), tail)
+			}
+		}
+		for gi := range c.A.Groups {
+			if c.A.Groups[gi].Vendor != 0 {
+				continue
+			}
+			hidden := WRec{Code: c.A.Undef[0], Decl: -1, Payload: refcodec.EncodeAVP(refcodec.Node{Code: c.A.Undef[1], Payload: []byte{1, 2, 3, 4}}), Tag: "undef-with-an-AVP-image-inside"}
+			for _, kids := range [][]WRec{nil, {tail}, {hidden}, {hidden, tail}} {
+				z := c.wgroup(gi, kids)
+				z.Flags |= 0x80
+				z.Vendor = 0
+				z.Tag += "/V-flag-vendor-0"
+				emit(c, z)
+				emit(c, z, tail)
+				emit(c, c.wgroup(gi, []WRec{z, tail}))
+			}
+		}
 		// wide groups: a grouped member that sits behind many other members (at top level and one
 		// level down) - nesting depth stays 2 or 3, only the member count grows
 		if len(c.A.Groups) > 1 && len(full) > 0 {
@@ -545,7 +577,7 @@ func runC04(ctx *ev.Ctx) {
 			ctx.Report("", generalise(what), what+" | case: "+mc.Desc(), mc)
 		}
 	})
-	ctx.Rule += " Groups defined by different applications of the message's parent chain (two per application) nested in each other to depth 3 in both directions. The code of every vendor-less Grouped AVP also under a foreign vendor id (a leaf), directly after / before / inside the real group. Wide containers: a grouped AVP behind 0..257 sibling members (counts around 16, 32, 64 and 256), at top level, inside a group and two levels down. Every accepted body is read a second time overlapping with a complete read from another source, after an oversize message. Every top-level record of every accepted body is also decoded with the exported AVP.DecodeFromBytes into ONE AVP value that held a vendor-specific AVP first and then every earlier record, and compared with a fresh decode of the same bytes."
+	ctx.Rule += " Leaves and vendor-less groups sent with the V flag and a Vendor-Id field of zero (12-byte header), at top level and inside a group. Groups defined by different applications of the message's parent chain (two per application) nested in each other to depth 3 in both directions. The code of every vendor-less Grouped AVP also under a foreign vendor id (a leaf), directly after / before / inside the real group. Wide containers: a grouped AVP behind 0..257 sibling members (counts around 16, 32, 64 and 256), at top level, inside a group and two levels down. Every accepted body is read a second time overlapping with a complete read from another source, after an oversize message. Every top-level record of every accepted body is also decoded with the exported AVP.DecodeFromBytes into ONE AVP value that held a vendor-specific AVP first and then every earlier record, and compared with a fresh decode of the same bytes."
 	ctx.Assume = []string{"reference framer (refcodec.Frame) walks by pad4(declared length) only", "a by-Length decoder accepts a sequence iff it accepts each record on its own (used to tell a legitimate value rejection from a framing error)"}
 }
 
